@@ -7,7 +7,7 @@ use crate::script::ScriptCase;
 
 pub const VALUES: &[&str] = &[
     "1", "2", "3", "10", "abc", "ab", "a b", "  x ", "ß", "日本", "NULL", "(empty)", "0.5", "a\tb",
-    "x  y", "Z", "z", "é", "\u{1F600}", "-1", "a\u{a0}b", "1 ", " 1",
+    "x  y", "Z", "z", "é", "\u{1F600}", "-1", "a\u{a0}b", "1 ", " 1", " ",
 ];
 
 pub const ERR_TEXTS: &[&str] = &[
@@ -27,6 +27,9 @@ pub const ERR_TEXTS: &[&str] = &[
 pub const REGEXES: &[&str] = &[
     "boom", "syn.*near", "a\\.b\\*c", "^line1", "nomatch", "[0-9]+", "b+", "^$", "Hey you", "\\(x\\)",
     "line1.line2", "pad+ed", "conn.ail", "(", "a{2,1}", "[z-a]", "x   y",
+    // sensitive to the flags the pattern is compiled with (dot-all, multi-line, case, unicode, verbose)
+    "line1.*line2", "x.+y", "x..y", "^line2", "line1$", "LINE1", "(?i)BOOM", "(?s)line1.line2", "b o o m", "^.*$",
+    "\\bx\\b", "日.語",
 ];
 
 pub const SQLS: &[&str] = &[
@@ -36,6 +39,9 @@ pub const SQLS: &[&str] = &[
     "select\n  2",
     "select '$x' , '\\\\'",
     "select a,\n b\n from t",
+    // blanks at the end of the first / a middle line belong to the text
+    "select a,  \n b\t\n from t",
+    "select 1 \n\t+ 2 \u{a0}\n + 3",
     "SELECT 1",
     "drop table t",
     "select ---- x",
@@ -123,7 +129,7 @@ pub fn mutate_lines(r: &mut Rng, lines: &mut Vec<String>) -> &'static str {
             if lines.iter().any(|l| l.is_empty()) {
                 for l in lines.iter_mut() {
                     if l.is_empty() {
-                        *l = "(empty)".into();
+                        *l = " ".into();
                     }
                 }
             }
@@ -161,10 +167,12 @@ pub fn mutate_lines(r: &mut Rng, lines: &mut Vec<String>) -> &'static str {
     }
 }
 
+/// a value that normalises to the empty string is expected as a blank-only line (an empty line
+/// would end the block)
 fn fix_empty_lines(lines: &mut Vec<String>) {
     for l in lines.iter_mut() {
         if l.is_empty() {
-            *l = "(empty)".into();
+            *l = " ".into();
         }
     }
 }
@@ -192,6 +200,31 @@ fn error_expectation(r: &mut Rng, actual: Option<&str>, allow_inline: bool) -> (
             ("error".into(), format!("----\n{}\n\n", t))
         }
         3 => (format!("error {}", r.pick(REGEXES)), String::new()),
+        4 if actual.is_some_and(|a| !a.trim().is_empty()) => {
+            // a one-token pattern derived from the WHOLE actual text: white space (incl. newlines)
+            // becomes `.` / `\s` / `.?`, a few characters become `.` or change case, optional
+            // anchors: whether it matches depends on the flags the regex is compiled with
+            let a = actual.unwrap().trim();
+            let mut t = String::new();
+            if r.chance(1, 4) {
+                t.push('^');
+            }
+            for c in a.chars() {
+                if c.is_whitespace() {
+                    t.push_str(*r.pick(&[".", "\\s", ".?", ".*", "\\s+"]));
+                } else if r.chance(1, 10) {
+                    t.push('.');
+                } else if r.chance(1, 12) && c.is_ascii_alphabetic() {
+                    t.push(if c.is_ascii_lowercase() { c.to_ascii_uppercase() } else { c.to_ascii_lowercase() });
+                } else {
+                    t.push_str(&regex::escape(&c.to_string()));
+                }
+            }
+            if r.chance(1, 4) {
+                t.push('$');
+            }
+            (format!("error {}", t), String::new())
+        }
         _ => {
             // regex derived from the actual text
             let t = match actual {
@@ -243,6 +276,8 @@ pub fn gen_record(r: &mut Rng, db: &mut DbScript, fl: &Flags, eff: &mut Eff) -> 
     // fresh sql text per record so that its rule is its own (history-dependence comes from lists)
     let sql = format!("{} -- {}", r.pick(SQLS), db.rules.len());
     let sql = if sql.contains('\n') { sql.replace("\n", "\n ") } else { sql };
+    // ... and so do blanks at the end of the last line
+    let sql = if r.chance(1, 12) { format!("{}{}", sql, r.pick(&[" ", "  ", "\t", " \u{a0}"])) } else { sql };
     match kind {
         0..=2 => {
             // statement
@@ -255,6 +290,7 @@ pub fn gen_record(r: &mut Rng, db: &mut DbScript, fl: &Flags, eff: &mut Eff) -> 
                 match &ans {
                     Ans::Complete(n) if r.chance(1, 2) => (format!("count {}", n), String::new()),
                     Ans::Rows { rows, .. } if r.chance(1, 2) => (format!("count {}", rows.len()), String::new()),
+                    Ans::Error(e) if retry.is_empty() && r.chance(1, 4) => error_expectation(r, Some(e.as_str()), true),
                     Ans::Error(e) => {
                         if r.chance(1, 2) || e.trim().is_empty() || e.contains("\n\n") {
                             ("error".to_string(), String::new())
@@ -331,7 +367,9 @@ pub fn gen_record(r: &mut Rng, db: &mut DbScript, fl: &Flags, eff: &mut Eff) -> 
             let out = r.pick(&["hi\n", "a\nb", "", "  padded \n\n", "x\n\n\ny\n"]).to_string();
             let ans = match r.below(if want_pass { 1 } else { 5 }) {
                 0 if !want_pass => CmdAns::Exit { code: r.range(1, 3) as i32, stdout: out.clone() },
-                1 if false => CmdAns::SpawnErr,
+                1 => CmdAns::SpawnErr,
+                // killed by a signal, possibly after having written the expected output
+                2 => CmdAns::Signal { sig: *r.pick(&[1, 2, 9, 15]), stdout: out.clone() },
                 _ => CmdAns::Exit { code: 0, stdout: out.clone() },
             };
             db.cmd_rules.push((cmd.clone(), vec![ans]));
@@ -435,7 +473,27 @@ pub fn gen_c02(r: &mut Rng) -> ScriptCase {
         }
     }
     let locals = if r.chance(1, 2) { vec![("myvar".to_string(), "LOCAL".to_string())] } else { vec![] };
-    ScriptCase { strict_cols: r.chance(1, 4), threshold: 0, labels, locals, text, db, tag: "c02".into(), ..Default::default() }
+    // a second script on the same runner: what one run leaves behind (controls, threshold, sessions)
+    // carries over, a `halt` or a failure of the first run does not
+    let text2 = if r.chance(1, 3) {
+        let mut t2 = String::new();
+        let n2 = r.range(1, 5);
+        let halt2 = if r.chance(1, 5) { Some(r.below(n2)) } else { None };
+        for i in 0..n2 {
+            if Some(i) == halt2 {
+                t2.push_str("halt\n\n");
+            }
+            match r.below(10) {
+                0 => t2.push_str(&gen_control(r, &mut eff)),
+                _ => t2.push_str(&gen_record(r, &mut db, &fl, &mut eff)),
+            }
+        }
+        Some(t2)
+    } else {
+        None
+    };
+    let tag = format!("c02 halt={} second={}", halt_at.is_some(), text2.is_some());
+    ScriptCase { strict_cols: r.chance(1, 4), threshold: 0, labels, locals, text, text2, db, tag, ..Default::default() }
 }
 
 /// C09: retry N (1..=maxn), outcome bit-vector `bits` (bit i = attempt i passes), record kind k
@@ -550,7 +608,17 @@ pub fn gen_c10(
         threshold,
         text,
         db,
-        tag: format!("c10 q={:?} f={:?} vw={} perm={} thr={}", qsort, fsort, valuewise, permkind, threshold),
+        // a blank-only value inside a multi-column row line cannot be matched by any expected line
+        // (the joined normalised values keep an edge / double blank): no reference exists
+        tag: format!(
+            "c10 q={:?} f={:?} vw={} perm={} thr={} um={}",
+            qsort,
+            fsort,
+            valuewise,
+            permkind,
+            threshold,
+            rows.iter().any(|r| r.len() > 1 && r.iter().any(|v| norm(v).is_empty()))
+        ),
         ..Default::default()
     }
 }
@@ -563,11 +631,24 @@ pub fn gen_c11(
     engine: &str,
     leak: bool,
 ) -> ScriptCase {
+    gen_c11_gap(guards, labels, kind, engine, leak, "")
+}
+
+/// `gap`: blank / comment lines written after every guard line (guards wait for the next record)
+pub fn gen_c11_gap(
+    guards: &[(bool, &str)],
+    labels: &[&str],
+    kind: usize,
+    engine: &str,
+    leak: bool,
+    gap: &str,
+) -> ScriptCase {
     let mut db = DbScript { engine: engine.into(), ..Default::default() };
     let mut text = String::new();
     for (only, l) in guards {
-        text.push_str(&format!("{} {}\n", if *only { "onlyif" } else { "skipif" }, l));
+        text.push_str(&format!("{} {}\n{}", if *only { "onlyif" } else { "skipif" }, l, gap));
     }
+    let record_line = text.matches('\n').count() + 1;
     match kind {
         0 => {
             // expectation deliberately wrong: a skipped record cannot fail
@@ -591,7 +672,7 @@ pub fn gen_c11(
         labels: labels.iter().map(|s| s.to_string()).collect(),
         text,
         db,
-        tag: format!("c11 guards={:?} labels={:?} kind={} engine={:?}", guards, labels, kind, engine),
+        tag: format!("c11 guards={:?} labels={:?} kind={} engine={:?} line={}", guards, labels, kind, engine, record_line),
         ..Default::default()
     }
 }
